@@ -12,7 +12,7 @@ import "math/bits"
 // This is exactly the arithmetic of time.Time.Add(ExpTimeToDuration(e)): (e+1)*337.5e9 ns split into
 // seconds and nanoseconds. Signed and unsigned operators agree because all values are in [0, 2^63).
 
-func gcd64(a, b uint64) uint64 {
+func pGcd64(a, b uint64) uint64 {
 	for b != 0 {
 		a, b = b, a%b
 	}
@@ -103,7 +103,7 @@ func (s *Store) divRemConst(op Op, a *Term, B uint64, depth int) *Term {
 		if hi, lo := bits.Mul64(bx, A); hi != 0 || lo >= 1<<63 {
 			return nil
 		}
-		g := gcd64(A, B)
+		g := pGcd64(A, B)
 		A2, B2 := A/g, B/g
 		if bits.OnesCount64(B2) != 1 {
 			return nil
